@@ -628,6 +628,48 @@ func c06Catalogue(k *c06Keys, rt *rapid.T) []c06Outcome {
 			_ = cm.w.WriteMsg(&RequesterAcknowledgePayload{Success: true})
 		}))
 	}
+	// 4d. the same towards the requester: what B sent in an honest (complete or interrupted) session A -> B is
+	// recorded; when A asks for B again, a party holding no key answers with the recorded frames
+	for _, relayed := range []int{2, 4, 5} { // frames relayed in the recorded session (5 = complete)
+		relayed := relayed
+		var fromB [][]byte
+		func() {
+			ca, cma := c06Pipe()
+			cb, cmb := c06Pipe()
+			doneA := c06RunRequester(ca, k.A, k.B.GetPublic())
+			doneB := c06RunResponder(cb, k.B)
+			_ = cma.c.SetDeadline(time.Now().Add(5 * time.Second))
+			_ = cmb.c.SetDeadline(time.Now().Add(5 * time.Second))
+			defer func() { _ = cma.c.Close(); _ = cmb.c.Close(); <-doneA; <-doneB }()
+			for i := 0; i < relayed; i++ {
+				src, dst := cma, cmb
+				if i%2 == 1 {
+					src, dst = cmb, cma
+				}
+				raw, err := c06ReadRawFrame(src)
+				if err != nil {
+					return
+				}
+				if i%2 == 1 {
+					fromB = append(fromB, raw)
+				}
+				if c06WriteRawFrame(dst, raw) != nil {
+					return
+				}
+			}
+		}()
+		out = append(out, c06AttackRequester(k, fmt.Sprintf("replay-of-recorded-responder-frames/recorded-%d-frames", relayed), func(cm *c06Conn, o *c06Outcome) {
+			for _, raw := range fromB {
+				if _, err := c06ReadRawFrame(cm); err != nil { // A's hello, then A's authenticate
+					return
+				}
+				if c06WriteRawFrame(cm, raw) != nil {
+					return
+				}
+			}
+			_, _ = c06ReadRawFrame(cm) // A's acknowledge, if it gets that far
+		}))
+	}
 	// 5. reflection and re-ordering
 	out = append(out, c06AttackResponder(k, "reflect-responder-hello-as-authenticate", func(cm *c06Conn, o *c06Outcome) {
 		if cm.sendHello(honestPub) != nil {
